@@ -119,6 +119,12 @@ pub fn mp4_config(c: &MuxCase) -> mp4::Mp4Config {
     mp4::Mp4Config { major_brand: mp4::FourCC { value: c.major }, minor_version: c.minor, compatible_brands: c.compat.iter().map(|b| mp4::FourCC { value: *b }).collect(), timescale: c.timescale }
 }
 
+thread_local! {
+    /// (operation index, milliseconds): run_mux on this thread sleeps that long before that
+    /// write_sample call (C15: the output must not depend on the real time between calls)
+    pub static PACE: std::cell::Cell<Option<(usize, u64)>> = const { std::cell::Cell::new(None) };
+}
+
 /// Interpret a history against the real muxer. Every call is guarded; after a panic the
 /// history stops (the writer state is unspecified).
 pub fn run_mux<W: Write + Seek>(case: &MuxCase, w: W) -> MuxRun<W> {
@@ -159,7 +165,13 @@ pub fn run_mux<W: Write + Seek>(case: &MuxCase, w: W) -> MuxRun<W> {
             }
         }
     }
-    for op in &case.ops {
+    let pace = PACE.with(|p| p.get());
+    for (oi, op) in case.ops.iter().enumerate() {
+        if let Some((at, ms)) = pace {
+            if oi == at {
+                std::thread::sleep(std::time::Duration::from_millis(ms));
+            }
+        }
         let idx = if op.track >= 1 && (op.track as usize) <= model.len() { model[op.track as usize - 1].len() as u32 } else { 0 };
         let bytes = sample_bytes(op.track, idx, op.size);
         let sample = mp4::Mp4Sample { start_time: 0, duration: op.dur, rendering_offset: op.cts, is_sync: op.sync, bytes: mp4::Bytes::from(bytes) };
@@ -320,7 +332,7 @@ pub fn raw_op(bad_weight: f64) -> impl Strategy<Value = RawOp> {
         any::<u16>(),
         if bad_weight > 0.0 { prop::option::weighted(bad_weight, 0u8..3).boxed() } else { Just(None::<u8>).boxed() },
         0u8..8,
-        prop_oneof![Just(0u32), Just(1u32), 1u32..20, 20u32..400],
+        prop_oneof![50 => Just(0u32), 50 => Just(1u32), 50 => 1u32..20, 50 => 20u32..400, 1 => (0usize..crate::gen::BIG_SIZES.len()).prop_map(|i| crate::gen::BIG_SIZES[i])],
         0u8..12,
         any::<u32>(),
         crate::gen::cts_strategy(),
